@@ -8,7 +8,8 @@
 (*          reset before their type is complete), in every interleaving of their events.                           *)
 EXTENDS H3Frame, Json, TLC, SequencesExt, FiniteSetsExt
 
-CONSTANTS M, K     \* M: control frames per sequence (part A); K: streams per scenario (part B)
+CONSTANTS M, K,    \* M: control frames per sequence (part A); K: streams per scenario (part B)
+          MC, Pairs \* part C: frames per sequence after SETTINGS; whether every pair of cut points is used in addition to every single one
 
 Letters == {"SET", "SETV", "GA4", "GA0", "GA1", "CP", "MP", "D", "H", "PP", "H2", "U", "BADCP", "LONGGA"}
 Bytes(x) ==
@@ -47,6 +48,25 @@ ScnA(seq, ending, role, cfg, late) ==
         steps == [i \in 1..Len(evs) |-> WithSid(evs[i], Sid(role, 1))]
     IN [part |-> "A", role |-> role, cfg |-> cfg, letters |-> seq, ending |-> ending,
         steps |-> steps \o (IF late THEN <<[op |-> "grant", uni |-> 2, bidi |-> 0]>> ELSE <<>>) \o Probe(role)]
+
+\* ---- part C: one control stream, the same bytes under every chunking ------------------------------------------------
+\* frames that matter for chunking: unknown frames with a payload, in short and long type form, between short frames
+LettersC == {"U", "UL", "U2", "GA4", "GA0", "MP", "SETV2"}
+BytesC(x) == CASE x = "UL" -> <<33, 20>> \o [i \in 1..20 |-> 170]      \* reserved type, 20-byte payload
+               [] x = "U2" -> <<65, 75, 3, 1, 2, 3>>                    \* reserved type 0x14b = 0x1f * 10 + 0x21 in 2-byte form
+               [] x = "SETV2" -> <<4, 2, 8, 1>>                         \* a second SETTINGS frame: H3_FRAME_UNEXPECTED
+               [] OTHER -> Bytes(x)
+RECURSIVE CatC(_)
+CatC(q) == IF q = <<>> THEN <<>> ELSE BytesC(q[1]) \o CatC(Tail(q))
+\* cut `bs` after the positions in `cuts` (a set of 1..Len-1)
+Pieces(bs, cuts) ==
+    LET cs == SetToSortSeq(cuts \cup {0, Len(bs)}, <)
+    IN [i \in 1..(Len(cs) - 1) |-> D(SubSeq(bs, cs[i] + 1, cs[i + 1]))]
+ScnC(q, cuts, ending, role) ==
+    LET wire == <<0, 4, 0>> \o CatC(q)
+        evs == Pieces(wire, cuts) \o (IF ending = "fin" THEN <<FIN>> ELSE <<>>)
+    IN [part |-> "C", role |-> role, cfg |-> [grease |-> FALSE, uni_credit |-> 100, write |-> "all"], letters |-> q, ending |-> ending, cuts |-> SetToSortSeq(cuts, <),
+        steps |-> [i \in 1..Len(evs) |-> WithSid(evs[i], Sid(role, 1))] \o Probe(role)]
 
 \* ---- part B ------------------------------------------------------------------------------------------------
 Scripts == <<
@@ -89,7 +109,14 @@ FinishB == /\ out = <<>> /\ seq = <<>>
                  LET tagged == [k \in 1..K |-> [i \in 1..Len(Scripts[picks[k]]) |-> WithSid(Scripts[picks[k]][i], Sid(role, k))]]
                  IN \E inter \in Interleavings(tagged) : out' = ScnB(picks, inter, role, cfg)
            /\ UNCHANGED seq
-Next == Extend \/ FinishA \/ FinishB
+SeqsC == UNION {[1..n -> LettersC] : n \in 1..MC}
+FinishC == /\ out = <<>> /\ seq = <<>>
+           /\ \E q \in SeqsC, role \in {"server", "client"}, ending \in {"open", "fin"} :
+                 LET n == 3 + Len(CatC(q)) IN
+                 \E cuts \in ({ {c} : c \in 1..(n - 1) } \cup { 1..(n - 1) } \cup (IF Pairs THEN { {a, b} : a \in 1..(n - 1), b \in 1..(n - 1) } ELSE {})) :
+                    out' = ScnC(q, cuts, ending, role)
+           /\ UNCHANGED seq
+Next == Extend \/ FinishA \/ FinishB \/ FinishC
 Spec == Init /\ [][Next]_<<seq, out>>
 Emit == out = <<>> \/ PrintT(<<"SCN", ToJson(out)>>)
 =============================================================================
